@@ -406,3 +406,18 @@ case(C + "rename_keys", params={"d": D, "m": Dict(STR, STR)}, returns=D,
      ensures={"only": "all(any(ite(k in m, m[k], k) == r for k in d) for r in result)"},
      canaries={"same-keys": "all(k in result for k in d)", "empty": "len(result) == 0"},
      gen=lambda rng: {"d": sdict(rng), "m": {k: rng.choice(["x", "y"]) for k in rng.sample(["a", "b"], rng.randint(0, 2))}})
+
+case(C + "strip_num", params={"name": STR, "number": STR}, returns=STR,
+     ensures={"fn": "result == name.rstrip(number)"}, canaries={"id": "result == name"},
+     gen=lambda rng: {"name": rng.choice(["top_1", "top12", "a"]), "number": rng.choice(["1", "12", "2"])})
+case(C + "store_none", params={"d": Dict(STR, Opt(INT)), "k": STR, "x": Opt(INT)}, returns=INT, modifies=["d"],
+     ensures={"none": "implies(x is None, d[k] is None)", "some": "implies(x is not None, d[k] == x + 1)"},
+     canaries={"same": "d[k] == x"},
+     gen=lambda rng: {"d": {}, "k": "a", "x": rng.choice([None, 1, 2])})
+
+# floor division / modulo by NEGATIVE constants (Python rounds toward minus infinity; the remainder has the sign of the divisor)
+case(C + "neg_div", params={"x": INT}, returns=Tuple(INT, INT, INT, INT),
+     ensures={"recon": "x == -3 * result[0] + result[1] and -3 < result[1] and result[1] <= 0", "pos": "x == 4 * result[2] + result[3] and 0 <= result[3] and result[3] < 4",
+              "inst": "implies(x == 7, result == (-3, -2, 1, 3)) and implies(x == -7, result == (2, -1, -2, 1))"},
+     canaries={"trunc": "implies(x == 7, result[0] == -2)", "posrem": "result[1] >= 0"},
+     gen=lambda rng: {"x": rng.randint(-9, 9)})
